@@ -92,14 +92,11 @@ Definition code_of_run (r : run Z Z) : list Z :=
   | Diverge => [-2]
   end.
 
-Fixpoint pack (base : Z) (l : list Z) : Z :=
-  match l with [] => 0 | x :: r => x + base * pack base r end.
-
 Definition code_of_io (r : outcome (list Z) Z * list Z * list N) : list Z :=
   let '(o, tr, _) := r in
   match o with
-  | Done (ROk vs) => [Z.of_nat (length tr); pack 4 tr; 0; pack 32 (map (Z.add 1) vs)]
-  | Done (RErr k m) => [Z.of_nat (length tr); pack 4 tr; kind_code k; m + 1]
+  | Done (ROk vs) => Z.of_nat (List.length tr) :: 0 :: tr ++ map (Z.add 1) vs
+  | Done (RErr k m) => Z.of_nat (List.length tr) :: kind_code k :: tr ++ [m + 1]
   | Panic => [-1]
   | Diverge => [-2]
   end.
@@ -149,12 +146,12 @@ Definition has_timeout (w : Z) : bool :=
 
 Fixpoint ref_io (b : N) (s : list Z) (items : list Z) (from : nat) (tr vs : list Z) : list Z :=
   match items with
-  | [] => [Z.of_nat (length tr); pack 4 tr; 0; pack 32 (map (Z.add 1) vs)]
+  | [] => Z.of_nat (List.length tr) :: 0 :: tr ++ map (Z.add 1) vs
   | x :: rest =>
       let '(a, sym) := ref_retry b s from in
       let tr' := tr ++ repeat x a in
       if sym =? 0 then ref_io b s rest (from + a) tr' (vs ++ [Z.of_nat (from + a - 1)])
-      else [Z.of_nat (length tr'); pack 4 tr'; sym; Z.of_nat (from + a - 1) + 1]
+      else Z.of_nat (List.length tr') :: sym :: tr' ++ [Z.of_nat (from + a - 1) + 1]
   end.
 
 Definition ref_wrapper (w : Z) (b : N) (overrun : bool) (s : list Z) : list Z :=
@@ -179,9 +176,6 @@ Fixpoint judge_rows (obs : list J) (scripts : list (list Z)) (f g : list Z -> li
 
 Definition digest_of (scripts : list (list Z)) (f : list Z -> list Z) : Z :=
   dig_fin (fold_left (fun h s => fold_left dig (f s) h) scripts dig0).
-
-Definition finish (r : option (bool * bool)) : verdict :=
-  match r with Some (a, p) => ok_verdict a p | None => malformed end.
 
 Definition is_panic (j : J) : bool :=
   match j with JL [JS s] => String.eqb s "panic" | _ => false end.
@@ -275,123 +269,176 @@ Definition ref_sleeps (initial cap : Z) (ge2 : bool) (a : nat) : list Z :=
                 else Z.min cap (if ge2 then initial * 2 ^ j else initial))
       (zrange (Z.of_nat a - 1)).
 
-(* ---------- the check ---------- *)
+Fixpoint lead_ok (l : list Z) : nat :=
+  match l with x :: r => if x =? 0 then S (lead_ok r) else O | [] => O end.
+
+(* ---------- the check ----------
+   A case whose INPUT does not decode is `malformed` (infrastructure).  An OUTPUT that does not
+   decode is a disagreement when it is ["panic"] (the helpers never panic on these inputs) and
+   malformed otherwise. *)
+Definition bad_out (output : J) : verdict :=
+  if is_panic output then ok_verdict false false else malformed.
+
+Definition check_retry (is_row : bool) (input output : J) : verdict :=
+  match input with
+  | JL [JI w; JI b; jp; JI extra; JB overrun] =>
+      match jints jp with
+      | Some prefix =>
+          if negb (forallb sym_ok prefix && (0 <=? b) && (0 <=? extra) && (extra <=? 6)
+                   && (0 <=? w) && (w <=? 13))
+          then malformed else
+          let scripts := map (app prefix) (tails extra) in
+          let f := model_wrapper w (Z.to_N b) overrun in
+          let g := ref_wrapper w (Z.to_N b) overrun in
+          if is_row then
+            match output with
+            | JL obs => match judge_rows obs scripts f g with
+                        | Some (a, p) => ok_verdict a p
+                        | None => bad_out output
+                        end
+            | _ => bad_out output
+            end
+          else
+            match output with
+            | JI d => ok_verdict (d =? digest_of scripts f) (d =? digest_of scripts g)
+            | _ => bad_out output
+            end
+      | None => malformed
+      end
+  | _ => malformed
+  end.
+
+Definition check_batch (input output : J) : verdict :=
+  match input with
+  | JL [JI api; JI n; JI size; JI fail; JB dup; JB par; JI errsym] =>
+      if negb ((0 <=? n) && (0 <=? size) && sym_ok errsym && (1 <=? errsym)) then malformed else
+      match output with
+      | JL [jtr; jr] =>
+          match dec_trace jtr, dec_cres jr with
+          | Some tr, Some r =>
+              let items := zrange n in
+              let sz := Z.to_nat (Z.min size (n + 1)) in        (* chunks_clamp *)
+              let process := batch_process fail dup errsym in
+              let '(mr, mtr) := if api =? 0 then batch_in_chunks items sz process
+                                else run_batch_operation items sz par process in
+              let '(rtr, rr) := ref_batch n size fail dup errsym in
+              ok_verdict (zll_eqb tr mtr && cres_eqb r (cres_of_res mr))
+                         (zll_eqb tr rtr && cres_eqb r rr)
+          | _, _ => bad_out output
+          end
+      | _ => bad_out output
+      end
+  | _ => malformed
+  end.
+
+Definition check_page (input output : J) : verdict :=
+  match input with
+  | JL [JI api; JI ps; jmp; JL jscript; jtail] =>
+      match omap dec_pg jscript, dec_pg jtail,
+            (match jmp with JN => Some None | JI m => Some (Some m) | _ => None end) with
+      | Some script, Some tail, Some mp =>
+          match output with
+          | JL [jcalls; jr] =>
+              match dec_trace jcalls, dec_cres jr with
+              | Some calls, Some r =>
+                  let extra := match mp with Some m => Z.to_nat (Z.min m 5000) | None => O end in
+                  let fuel := (List.length script + extra + 2)%nat in
+                  let mpn := match mp with Some m => Some (Z.to_N m) | None => None end in
+                  let fetch := pg_fetch script tail in
+                  let '(mo, mcalls) :=
+                    if api =? 0 then paginate fuel (Z.to_N ps) mpn fetch
+                    else if api =? 1 then run_paginated_operation fuel (Z.to_N ps) mpn fetch
+                    else run_cloud_io_paginated fuel (Z.to_N ps) mpn fetch in
+                  let mcalls := map (fun c => [Z.of_N (fst c); Z.of_N (snd c)]) mcalls in
+                  let '(rcalls, rr) := ref_page ps mp script tail fuel in
+                  ok_verdict (zll_eqb calls mcalls && cres_eqb r (cres_of_outcome mo))
+                             (zll_eqb calls rcalls && cres_eqb r rr)
+              | _, _ => bad_out output
+              end
+          | _ => bad_out output
+          end
+      | _, _, _ => malformed
+      end
+  | _ => malformed
+  end.
+
+Definition check_timeout (input output : J) : verdict :=
+  match input with
+  | JL [JI mode; JI sym] =>
+      if negb (sym_ok sym && (0 <=? mode) && (mode <=? 3)) then malformed else
+      match jints output with
+      | Some code =>
+          let overrun := (mode =? 1) || (mode =? 2) in
+          let '(t, el) := if mode =? 0 then (hour_ns, 0%N) else if mode =? 1 then (0%N, 1%N)
+                          else if mode =? 2 then (5000000%N, 25000000%N)
+                          else (2000000000%N, 2000000%N) in
+          let m := code_of_run (mk_run (with_timeout (-1) t el (Done (sym_res sym 0))) 1 []) in
+          let r := if sym =? 0 then (if overrun then [1; 2; 0] else [1; 0; 1]) else [1; sym; 1] in
+          ok_verdict (zlist_eqb code m) (zlist_eqb code r)
+      | None => bad_out output
+      end
+  | _ => malformed
+  end.
+
+Definition check_timing (input output : J) : verdict :=
+  match input with
+  | JL [JI initial; JI cap; JF mult; JI b; JI nfail; JI slack] =>
+      if negb ((0 <=? initial) && (0 <=? cap) && (0 <=? b) && (0 <=? nfail)) then malformed else
+      match output with
+      | JL [JI calls; JI cls; JI org; JI us] =>
+          let ge2 := PrimFloat.leb 2%float mult in
+          let c := {| max_attempts := Z.to_N b; initial_delay_ms := Z.to_N initial;
+                      max_delay_ms := Z.to_N cap; mult_ge2 := ge2 |} in
+          let op := fun i : nat => if Z.of_nat i <? nfail then RErr Network (Z.of_nat i)
+                                   else ROk (Z.of_nat i) in
+          let r := retry c op 0 in
+          let lo := 1000 * Z.of_N (nsum (run_sleeps r)) in
+          let a := Nat.min (N.to_nat (N.max 1 (Z.to_N b))) (S (Z.to_nat nfail)) in
+          let rcode := if Z.of_nat a <=? nfail then [Z.of_nat a; 1; Z.of_nat a]
+                       else [Z.of_nat a; 0; Z.of_nat a] in
+          let rlo := 1000 * fold_right Z.add 0 (ref_sleeps initial cap ge2 a) in
+          ok_verdict
+            (zlist_eqb [calls; cls; org] (code_of_run r) && (lo <=? us) && (us <? lo + slack))
+            (zlist_eqb [calls; cls; org] rcode && (rlo <=? us) && (us <? rlo + slack))
+      | _ => bad_out output
+      end
+  | _ => malformed
+  end.
+
+Definition check_parallel (input output : J) : verdict :=
+  match input with
+  | JL [jsyms] =>
+      match jints jsyms with
+      | Some syms =>
+          if negb (forallb sym_ok syms) then malformed else
+          match output with
+          | JL [JI n; jr] =>
+              match dec_cres jr with
+              | Some r =>
+                  let ops := map (fun p => sym_res (snd p) (Z.of_nat (fst p)))
+                                 (combine (seq 0 (List.length syms)) syms) in
+                  let '(mr, mn) := run_parallel ops in
+                  let k := lead_ok syms in
+                  ok_verdict ((n =? Z.of_nat mn) && cres_eqb r (cres_of_res mr))
+                             (if Nat.eqb k (List.length syms)
+                              then (n =? Z.of_nat k) && cres_eqb r (CROk (zrange (Z.of_nat k)))
+                              else (n =? Z.of_nat (S k))
+                                   && cres_eqb r (CRErr (nth k syms 0) (Z.of_nat k)))
+              | None => bad_out output
+              end
+          | _ => bad_out output
+          end
+      | None => malformed
+      end
+  | _ => malformed
+  end.
+
 Definition check_C18 (kind : string) (input output : J) : verdict :=
-  if is_panic output then ok_verdict false false else
-  if String.eqb kind "rrow" || String.eqb kind "rbucket" then
-    match input with
-    | JL [JI w; JI b; jp; JI extra; JB overrun] =>
-        match jints jp with
-        | Some prefix =>
-            if negb (forallb sym_ok prefix && (0 <=? b) && (0 <=? extra) && (extra <=? 6))
-            then malformed else
-            let scripts := map (app prefix) (tails extra) in
-            let f := model_wrapper w (Z.to_N b) overrun in
-            let g := ref_wrapper w (Z.to_N b) overrun in
-            if String.eqb kind "rrow" then
-              match output with
-              | JL obs => finish (judge_rows obs scripts f g)
-              | _ => malformed
-              end
-            else
-              match output with
-              | JI d => ok_verdict (d =? digest_of scripts f) (d =? digest_of scripts g)
-              | _ => malformed
-              end
-        | None => malformed
-        end
-    | _ => malformed
-    end
-  else if String.eqb kind "batch" then
-    match input, output with
-    | JL [JI api; JI n; JI size; JI fail; JB dup; JB par; JI errsym], JL [jtr; jr] =>
-        match dec_trace jtr, dec_cres jr with
-        | Some tr, Some r =>
-            if negb ((0 <=? n) && (0 <=? size) && sym_ok errsym && (1 <=? errsym)) then malformed
-            else
-            let items := zrange n in
-            let sz := Z.to_nat (Z.min size (n + 1)) in        (* chunks_clamp *)
-            let process := batch_process fail dup errsym in
-            let '(mr, mtr) := if api =? 0 then batch_in_chunks items sz process
-                              else run_batch_operation items sz par process in
-            let '(rtr, rr) := ref_batch n size fail dup errsym in
-            ok_verdict (zll_eqb tr mtr && cres_eqb r (cres_of_res mr))
-                       (zll_eqb tr rtr && cres_eqb r rr)
-        | _, _ => malformed
-        end
-    | _, _ => malformed
-    end
-  else if String.eqb kind "page" then
-    match input, output with
-    | JL [JI api; JI ps; jmp; JL jscript; jtail], JL [jcalls; jr] =>
-        match omap dec_pg jscript, dec_pg jtail, dec_trace jcalls, dec_cres jr,
-              (match jmp with JN => Some None | JI m => Some (Some m) | _ => None end) with
-        | Some script, Some tail, Some calls, Some r, Some mp =>
-            let extra := match mp with Some m => Z.to_nat (Z.min m 5000) | None => O end in
-            let fuel := (length script + extra + 2)%nat in
-            let mpn := match mp with Some m => Some (Z.to_N m) | None => None end in
-            let fetch := pg_fetch script tail in
-            let '(mo, mcalls) :=
-              if api =? 0 then paginate fuel (Z.to_N ps) mpn fetch
-              else if api =? 1 then run_paginated_operation fuel (Z.to_N ps) mpn fetch
-              else run_cloud_io_paginated fuel (Z.to_N ps) mpn fetch in
-            let mcalls := map (fun c => [Z.of_N (fst c); Z.of_N (snd c)]) mcalls in
-            let '(rcalls, rr) := ref_page ps mp script tail fuel in
-            ok_verdict (zll_eqb calls mcalls && cres_eqb r (cres_of_outcome mo))
-                       (zll_eqb calls rcalls && cres_eqb r rr)
-        | _, _, _, _, _ => malformed
-        end
-    | _, _ => malformed
-    end
-  else if String.eqb kind "timeout" then
-    match input, jints output with
-    | JL [JI mode; JI sym], Some code =>
-        if negb (sym_ok sym) then malformed else
-        let overrun := (mode =? 1) || (mode =? 2) in
-        let '(t, el) := if mode =? 0 then (hour_ns, 0%N) else if mode =? 1 then (0%N, 1%N)
-                        else if mode =? 2 then (5000000%N, 25000000%N)
-                        else (2000000000%N, 2000000%N) in
-        let m := code_of_run (mk_run (with_timeout (-1) t el (Done (sym_res sym 0))) 1 []) in
-        let r := if sym =? 0 then (if overrun then [1; 2; 0] else [1; 0; 1]) else [1; sym; 1] in
-        ok_verdict (zlist_eqb code m) (zlist_eqb code r)
-    | _, _ => malformed
-    end
-  else if String.eqb kind "timing" then
-    match input, output with
-    | JL [JI initial; JI cap; JF mult; JI b; JI nfail; JI slack], JL [JI calls; JI cls; JI org; JI us] =>
-        if negb ((0 <=? initial) && (0 <=? cap) && (0 <=? b) && (0 <=? nfail)) then malformed else
-        let ge2 := PrimFloat.leb 2%float mult in
-        let c := {| max_attempts := Z.to_N b; initial_delay_ms := Z.to_N initial;
-                    max_delay_ms := Z.to_N cap; mult_ge2 := ge2 |} in
-        let op := fun i : nat => if Z.of_nat i <? nfail then RErr Network (Z.of_nat i)
-                                 else ROk (Z.of_nat i) in
-        let r := retry c op 0 in
-        let lo := 1000 * Z.of_N (nsum (run_sleeps r)) in
-        let a := Nat.min (N.to_nat (N.max 1 (Z.to_N b))) (S (Z.to_nat nfail)) in
-        let rcode := if Z.of_nat a <=? nfail then [Z.of_nat a; 1; Z.of_nat a]
-                     else [Z.of_nat a; 0; Z.of_nat a] in
-        let rlo := 1000 * fold_right Z.add 0 (ref_sleeps initial cap ge2 a) in
-        ok_verdict (zlist_eqb [calls; cls; org] (code_of_run r) && (lo <=? us) && (us <? lo + slack))
-                   (zlist_eqb [calls; cls; org] rcode && (rlo <=? us) && (us <? rlo + slack))
-    | _, _ => malformed
-    end
-  else if String.eqb kind "parallel" then
-    match input, output with
-    | JL [jsyms], JL [JI n; jr] =>
-        match jints jsyms, dec_cres jr with
-        | Some syms, Some r =>
-            if negb (forallb sym_ok syms) then malformed else
-            let ops := map (fun p => sym_res (snd p) (Z.of_nat (fst p)))
-                           (combine (seq 0 (length syms)) syms) in
-            let '(mr, mn) := run_parallel ops in
-            let k := lead_ok syms in
-            ok_verdict ((n =? Z.of_nat mn) && cres_eqb r (cres_of_res mr))
-                       (if Nat.eqb k (length syms)
-                        then (n =? Z.of_nat k) && cres_eqb r (CROk (zrange (Z.of_nat k)))
-                        else (n =? Z.of_nat (S k))
-                             && cres_eqb r (CRErr (nth k syms 0) (Z.of_nat k)))
-        | _, _ => malformed
-        end
-    | _, _ => malformed
-    end
+  if String.eqb kind "rrow" then check_retry true input output
+  else if String.eqb kind "rbucket" then check_retry false input output
+  else if String.eqb kind "batch" then check_batch input output
+  else if String.eqb kind "page" then check_page input output
+  else if String.eqb kind "timeout" then check_timeout input output
+  else if String.eqb kind "timing" then check_timing input output
+  else if String.eqb kind "parallel" then check_parallel input output
   else malformed.
